@@ -40,7 +40,7 @@ theorem wfs_refines_lifo (c : Wfs.Cfg) {s : Wfs.State} (h : Wfs.Reach c s) :
 (pop or pop_all list) or the node is still in the stack, exactly once. -/
 theorem wfs_each_node_popped_once (c : Wfs.Cfg) {s : Wfs.State} (h : Wfs.Reach c s) (n : Nat) :
     pushes n s.hist = outs n s.hist + s.abs.count n ∧ s.abs.count n ≤ 1 :=
-  ⟨conservation (Wfs.inv_reach c h).hist n, List.nodup_iff_count_le_one.1 (Wfs.inv_reach c h).nodup n⟩
+  ⟨conservation (Wfs.inv_reach c h).hist n, List.nodup_iff_count.1 (Wfs.inv_reach c h).nodup n⟩
 
 /-- **pop_all_returns_all_in_lifo_order_and_empties** (wfs) -/
 theorem wfs_pop_all_returns_all_in_lifo_order_and_empties (c : Wfs.Cfg) {s s' : Wfs.State}
@@ -127,7 +127,7 @@ theorem lfs_refines_lifo (c : Lfs.Cfg) (wf : c.WF) {s : Lfs.State} (h : Lfs.Reac
 theorem lfs_each_node_popped_once (c : Lfs.Cfg) (wf : c.WF) {s : Lfs.State} (h : Lfs.Reach c s) (n : Nat) :
     pushes n s.hist = outs n s.hist + s.abs.count n ∧ s.abs.count n ≤ 1 :=
   ⟨conservation (Lfs.inv_reach c wf h).hist n,
-   List.nodup_iff_count_le_one.1 (Lfs.inv_reach c wf h).nodup n⟩
+   List.nodup_iff_count.1 (Lfs.inv_reach c wf h).nodup n⟩
 
 theorem lfs_pop_all_returns_all_in_lifo_order_and_empties (c : Lfs.Cfg) (wf : c.WF) {s s' : Lfs.State}
     (h : Lfs.Reach c s) (t : Nat) (st : Lfs.step c s (.popAll t) = some s') :
@@ -199,6 +199,9 @@ theorem lfs_unprotected_aba_witness :
 def WfsRefines (reach : Wfs.State → Prop) : Prop :=
   ∀ s, reach s → Valid s.hist s.abs ∧ Wfs.Chain s s.head s.abs
 
+def LfsRefines (reach : Lfs.State → Prop) : Prop :=
+  ∀ s, reach s → Valid s.hist s.abs ∧ Lfs.Chain s s.head s.abs
+
 /-- **C11_full**: everything above *plus* the wfstack with poppers under RCU read-side sections
 and node reuse after a grace period (`include/urcu/static/wfstack.h`, synchronisation
 technique 1), for a model `wfsRcuReach` of that scheme, *plus* the composition with the real
@@ -207,15 +210,14 @@ grace-period implementation instead of the abstract `GpSpec` steps (C01).  Unpro
 is by interface (DESIGN §3 item 6). -/
 def C11_full (wfsRcuReach : Wfs.State → Prop) : Prop :=
   (∀ c, WfsRefines (Wfs.Reach c)) ∧
-  (∀ c : Lfs.Cfg, c.WF → ∀ s, Lfs.Reach c s → Valid s.hist s.abs ∧ Lfs.Chain s s.head s.abs) ∧
+  (∀ c : Lfs.Cfg, c.WF → LfsRefines (Lfs.Reach c)) ∧
   WfsRefines wfsRcuReach
 
 /-- what is proved of `C11_full` -/
 theorem C11_partial :
-    (∀ c, WfsRefines (Wfs.Reach c)) ∧
-    (∀ c : Lfs.Cfg, c.WF → ∀ s, Lfs.Reach c s → Valid s.hist s.abs ∧ Lfs.Chain s s.head s.abs) :=
-  ⟨fun c s h => ⟨(wfs_refines_lifo c h).1, (wfs_refines_lifo c h).2.1⟩,
-   fun c wf s h => ⟨(lfs_refines_lifo c wf h).1, (lfs_refines_lifo c wf h).2.1⟩⟩
+    (∀ c, WfsRefines (Wfs.Reach c)) ∧ (∀ c : Lfs.Cfg, c.WF → LfsRefines (Lfs.Reach c)) :=
+  ⟨fun c _ h => ⟨(wfs_refines_lifo c h).1, (wfs_refines_lifo c h).2.1⟩,
+   fun c wf _ h => ⟨(lfs_refines_lifo c wf h).1, (lfs_refines_lifo c wf h).2.1⟩⟩
 
 /-! ## non-vacuity: concrete reachable runs (executable `step`, checked by `decide`) -/
 
